@@ -54,6 +54,7 @@ type i38Base struct {
 	dir                               string   // local template: all objects, no refs
 	ids                               []string // commits
 	rtmpl                             []string // remote object templates: rtmpl[r+1] holds closure(r) + c0 + tagOldR
+	ltmpl                             []string // local object templates: ltmpl[l+1] holds closure(l) + closure(last) + c0 + the local tags
 	tagT0, tagTLast, tagOldL, tagOldR string
 }
 
@@ -173,6 +174,23 @@ func i38Setup(k i38Case) (i38State, bool) {
 	if k.name == 2 && k.r >= 0 {
 		// decoy: the tracking ref a lookup that strips "refs/heads/" everywhere would find
 		st.local["refs/remotes/origin/a"] = b.ids[k.r]
+	}
+	// a remote-tracking ref can only name a commit the pusher has
+	known := b.dag.Reach(n - 1)
+	known[0] = true
+	if k.l >= 0 {
+		for c := range b.dag.Reach(k.l) {
+			known[c] = true
+		}
+	}
+	for name, id := range st.local {
+		if strings.HasPrefix(name, "refs/remotes/") {
+			for i, x := range b.ids {
+				if x == id && !known[i] {
+					delete(st.local, name)
+				}
+			}
+		}
 	}
 	st.specs = i38Specs[k.spec].Specs(S)
 	switch o.Lease {
@@ -380,11 +398,22 @@ func i38BuildBase(c *fw.Ctx, idx int, d fw.DAG, home string) *i38Base {
 		os.RemoveAll(filepath.Join(rd, "refs", "tmp"))
 		b.rtmpl = append(b.rtmpl, rd)
 	}
-	// local template: drop the helper refs
-	os.RemoveAll(filepath.Join(dir, "refs"))
-	os.Remove(filepath.Join(dir, "packed-refs"))
-	os.MkdirAll(filepath.Join(dir, "refs", "heads"), 0o755)
-	os.MkdirAll(filepath.Join(dir, "refs", "tags"), 0o755)
+	// local object templates: only what the pusher's own refs reach (the remote's
+	// other commits are unknown locally, as after someone else's push)
+	for l := -1; l < n; l++ {
+		ld := c.TempDir("c38lt")
+		gh.MustRun("init", "-q", "--bare", ld)
+		args := []string{"fetch", "-q", "--no-tags", "--no-write-fetch-head", dir, "refs/verif/c0:refs/tmp/c0", fmt.Sprintf("refs/verif/c%d:refs/tmp/last", n-1),
+			"refs/tags/t0:refs/tmp/t0", "refs/tags/tlast:refs/tmp/tlast", "refs/tags/oldL:refs/tmp/oldL"}
+		if l >= 0 {
+			args = append(args, fmt.Sprintf("refs/verif/c%d:refs/tmp/l", l))
+		}
+		gh.In(ld).MustRun(args...)
+		os.RemoveAll(filepath.Join(ld, "refs", "tmp"))
+		os.MkdirAll(filepath.Join(ld, "refs", "heads"), 0o755)
+		os.MkdirAll(filepath.Join(ld, "refs", "tags"), 0o755)
+		b.ltmpl = append(b.ltmpl, ld)
+	}
 	return b
 }
 
@@ -444,7 +473,7 @@ func (r *i38Run) prepare(k i38Case, st i38State) (local, remote string) {
 	c := r.c
 	local = c.TempDir("c38l")
 	remote = c.TempDir("c38r")
-	c.Must(iCopyDir(k.b.dir, local), "copy local template")
+	c.Must(iCopyDir(k.b.ltmpl[k.l+1], local), "copy local template")
 	c.Must(iCopyDir(k.b.rtmpl[k.r+1], remote), "copy remote template")
 	c.Must(i38WriteRefs(local, st.local), "write local refs")
 	c.Must(i38WriteRefs(remote, st.remote), "write remote refs")
